@@ -68,10 +68,22 @@ type fakeCA struct {
 	issued   []*x509.Certificate
 	inFlight int
 	maxIn    int
+	// twoRoots: the CA's bundle holds both roots; bundleFault draws whether a bundle lookup fails
+	twoRoots     bool
+	bundleFault  func() bool
+	bundleFaults int
 }
 
 func (f *fakeCA) Close() {}
 func (f *fakeCA) GetRootCertBundle() ([]string, error) {
+	if f.bundleFault != nil && f.bundleFault() {
+		f.bundleFaults++
+		return nil, errors.New("root bundle unavailable")
+	}
+	if f.twoRoots {
+		// a CA that publishes several current roots (the signing root last)
+		return []string{roots[1-f.curRoot].pem, roots[f.curRoot].pem}, nil
+	}
 	return []string{roots[f.curRoot].pem}, nil
 }
 
@@ -128,6 +140,13 @@ func checkItem(it *security.SecretItem, ca *fakeCA, bundle []byte) string {
 		if len(bundle) > 0 && !bytes.Contains(it.RootCert, bytes.TrimSpace(bundle)) {
 			return "root bundle lacks the configured trust bundle"
 		}
+		if ca.twoRoots {
+			for i := range roots {
+				if !bytes.Contains(it.RootCert, []byte(strings.TrimSpace(roots[i].pem))) {
+					return fmt.Sprintf("root bundle lacks root #%d the CA currently publishes", i)
+				}
+			}
+		}
 		return ""
 	}
 	blk, _ := pem.Decode(it.CertificateChain)
@@ -179,9 +198,13 @@ type ascenario struct {
 	Threads []string `json:"threads"` // gen-default | gen-root | bundle | rotate
 	CA      []int    `json:"ca"`      // answers available to signing calls (indices into caAnswer)
 	Warm    bool     `json:"warm"`    // a certificate is already cached when the threads start
+	// TwoRoots: the CA publishes two current roots and every bundle lookup may fail (explorer's choice)
+	TwoRoots bool `json:"two_roots,omitempty"`
 }
 
-func (a ascenario) String() string { return fmt.Sprintf("%v ca=%v warm=%v", a.Threads, a.CA, a.Warm) }
+func (a ascenario) String() string {
+	return fmt.Sprintf("%v ca=%v warm=%v tworoots=%v", a.Threads, a.CA, a.Warm, a.TwoRoots)
+}
 
 var bundle2 = []byte(roots[1].pem)
 
@@ -198,6 +221,12 @@ func runA(t *testing.T, sc ascenario, c *sched.Chooser) (vio [][2]string, outcom
 			}
 			return caAnswer(sc.CA[s.Choose(len(sc.CA), "ca-answer", func(int) int { return 0 })])
 		}
+		if sc.TwoRoots {
+			ca.twoRoots = true
+			ca.bundleFault = func() bool {
+				return s.Choose(2, "bundle-lookup", func(int) int { return 0 }) == 1
+			}
+		}
 		m := newClient(ca, 0.5, 0)
 		defer m.Close()
 		var notes []string
@@ -205,11 +234,15 @@ func runA(t *testing.T, sc ascenario, c *sched.Chooser) (vio [][2]string, outcom
 		var bundle []byte
 		if sc.Warm {
 			saved := ca.answers
+			savedFault := ca.bundleFault
+			ca.bundleFault = nil
+			defer func() { _ = savedFault }()
 			ca.answers = func() caAnswer { return caOK }
 			if _, err := m.GenerateSecret(security.WorkloadKeyCertResourceName); err != nil {
 				panic(err)
 			}
 			ca.answers = saved
+			ca.bundleFault = savedFault
 			ca.signs, ca.ok = 0, 0
 		}
 		type ret struct {
@@ -272,7 +305,9 @@ func runA(t *testing.T, sc ascenario, c *sched.Chooser) (vio [][2]string, outcom
 				chains = append(chains, rets[i].it.CertificateChain)
 			}
 		}
-		if !hasInvalidator {
+		// (a request that failed on the bundle lookup after its signing succeeded legitimately leads to a
+		// second signing by the next caller)
+		if !hasInvalidator && ca.bundleFaults == 0 {
 			if ca.ok > 1 {
 				vio = append(vio, [2]string{"single-flight:signed-more-than-once", fmt.Sprintf("%d successful signing requests for concurrent callers", ca.ok)})
 			}
@@ -287,6 +322,7 @@ func runA(t *testing.T, sc ascenario, c *sched.Chooser) (vio [][2]string, outcom
 		}
 		// failure is not sticky: once the CA works again the next request succeeds
 		ca.answers = func() caAnswer { return caOK }
+		ca.bundleFault = nil
 		it, err := m.GenerateSecret(security.WorkloadKeyCertResourceName)
 		if err != nil {
 			vio = append(vio, [2]string{"sticky-failure", "GenerateSecret fails although the CA answers: " + err.Error()})
@@ -377,14 +413,20 @@ func TestC18a(t *testing.T) {
 		for _, caSet := range [][]int{{0}, {0, 1}, {0, 2}} {
 			for a := 0; a < 2; a++ { // first thread always a generator
 				for b := 0; b < len(kinds); b++ {
-					scs = append(scs, ascenario{[]string{kinds[a], kinds[b]}, caSet, warm})
+					scs = append(scs, ascenario{Threads: []string{kinds[a], kinds[b]}, CA: caSet, Warm: warm})
 					for c := b; c < len(kinds); c++ {
 						if env.Thorough() || c < 3 {
-							scs = append(scs, ascenario{[]string{kinds[a], kinds[b], kinds[c]}, caSet, warm})
+							scs = append(scs, ascenario{Threads: []string{kinds[a], kinds[b], kinds[c]}, CA: caSet, Warm: warm})
 						}
 					}
 				}
 			}
+		}
+	}
+	// a CA with two current roots whose bundle lookups may fail
+	for _, warm := range []bool{false, true} {
+		for _, th := range [][]string{{"gen-default"}, {"gen-root"}, {"gen-default", "gen-root"}, {"gen-root", "gen-default"}, {"gen-default", "rotate"}} {
+			scs = append(scs, ascenario{Threads: th, CA: []int{0}, Warm: warm, TwoRoots: true})
 		}
 	}
 	bound := 3
